@@ -322,7 +322,16 @@ fn run(cfg: &Cfg, rep: &mut Report) {
         let q = (x as f64 - r as f64) / m as f64;
         let resid = (q - q.round()).abs();
         let tol = 1e-6 * (x as f64 / m as f64).abs().max(1.0);
-        if !(r >= 0.0 && r <= m) || !(resid <= tol) {
+        // for the exact backends the remainder itself is exact in f32 (only
+        // the shift by m can round): within 2 ulp of m of the real remainder,
+        // 0 and m being the same residue
+        let exact_ok = BACKEND == "mm" || {
+            let want = (x as f64).rem_euclid(m as f64);
+            let d = (r as f64 - want).abs();
+            let t = 2.0 * 1.1920929e-7 * m as f64;
+            d <= t || (d - m as f64).abs() <= t
+        };
+        if !(r >= 0.0 && r <= m) || !(resid <= tol) || !exact_ok {
             rep.violation(&format!("fp.{BACKEND}.rem_euclid_wrong"), format!("[{BACKEND}] rem_euclid({x:?}, {m:?}) = {r:?}: must lie in [0, m] and differ from x by a whole number of m (quotient {q})"), Json::obj().set("backend", BACKEND).set("x", f32s(x)).set("m", f32s(m)));
             return;
         }
@@ -742,6 +751,64 @@ fn run(cfg: &Cfg, rep: &mut Report) {
             }
         }
     });
+    // The same functions reached the way a user reaches them: through Angle,
+    // the free inverse functions and Vector::len, i.e. through the `f32`
+    // alias the crate selects per feature set (a wrong alias or a broken
+    // wrapper would not show in direct calls of the adapter modules).
+    #[cfg(any(feature = "std", feature = "libm", feature = "mm"))]
+    rep.run_stream(cfg, 8, "through_the_public_api", cfg.n(300_000, 15_000_000), |rng, _, rep| {
+        use re::math::angle::{acos, asin, atan2, rads};
+        use re::math::vec::vec3;
+        let x = rng.f32_in(-12.0, 12.0);
+        let mut hs = Hasher::new();
+        hs.f32(x);
+        rep.case(hs.get(), true);
+        let a = rads(x);
+        let r = catch(|| (a.sin(), a.cos(), a.sin_cos(), a.tan()));
+        match r {
+            Err(m) => {
+                rep.violation(&format!("fp.{BACKEND}.sin_panicked"), format!("[{BACKEND}] rads({x:?}).sin()/cos()/sin_cos()/tan() panicked: {m}"), Json::obj().set("x", f32s(x)));
+                return;
+            }
+            Ok((s, c, (s2, c2), t)) => {
+                judge_approx(rep, "sin", &[x], s, (x as f64).sin());
+                judge_approx(rep, "cos", &[x], c, (x as f64).cos());
+                judge_approx(rep, "sin", &[x], s2, (x as f64).sin());
+                judge_approx(rep, "cos", &[x], c2, (x as f64).cos());
+                if (x as f64).cos().abs() > 0.1 {
+                    judge_approx(rep, "tan", &[x], t, (x as f64).tan());
+                }
+            }
+        }
+        let u = rng.f32_in(-1.0, 1.0);
+        if let Ok((p, q)) = catch(|| (asin(u).to_rads(), acos(u).to_rads())) {
+            judge_approx(rep, "asin", &[u], p, (u as f64).asin());
+            judge_approx(rep, "acos", &[u], q, (u as f64).acos());
+        } else {
+            rep.violation(&format!("fp.{BACKEND}.asin_panicked"), format!("[{BACKEND}] asin/acos({u:?}) panicked"), Json::obj().set("x", f32s(u)));
+            return;
+        }
+        let (yy, xx) = (rng.f32_in(-5.0, 5.0), rng.f32_in(-5.0, 5.0));
+        if xx != 0.0 || yy != 0.0 {
+            let got = atan2(yy, xx).to_rads();
+            let exp = (yy as f64).atan2(xx as f64);
+            let pi = std::f64::consts::PI;
+            let alt = if exp > 0.0 { exp - 2.0 * pi } else { exp + 2.0 * pi };
+            let e = if (got as f64 - alt).abs() < (got as f64 - exp).abs() && exp.abs() > 3.1 { alt } else { exp };
+            judge_approx(rep, "atan2", &[yy, xx], got, e);
+        }
+        let v = [rng.f32_in(-9.0, 9.0), rng.f32_in(-9.0, 9.0), rng.f32_in(-9.0, 9.0)];
+        let l = vec3::<f32, ()>(v[0], v[1], v[2]).len();
+        let le = v.iter().map(|c| (*c as f64).powi(2)).sum::<f64>().sqrt();
+        let (rel, _) = bound("sqrt");
+        if !((l as f64 - le).abs() <= rel.max(4e-7) * le + 1e-30) {
+            rep.violation(&format!("fp.{BACKEND}.sqrt_out_of_bound"), format!("[{BACKEND}] vec3{v:?}.len() = {l}; reference {le}"), Json::obj().set("v", format!("{v:?}")));
+            return;
+        }
+        rep.count("public_api_checks");
+    });
+    #[cfg(any(feature = "std", feature = "libm", feature = "mm"))]
+    rep.floor("public_api_checks", 100_000);
     #[cfg(any(feature = "std", feature = "libm", feature = "mm"))]
     rep.run_stream(cfg, 6, "angle_wrap", cfg.n(400_000, 20_000_000), |rng, _, rep| {
         use re::math::angle::rads;
